@@ -60,9 +60,10 @@ def _dispatch_simple(kind: int, ok: bool, secs: int, frac: Optional[int], start:
     """
     # created / modified / deleted events on one path: delivered iff the path matches and start <= secs*1000+frac <= end (both inclusive)
     h = _mk(ok, False, secs, frac, 0, 0, True, start, end)
-    ev = [FileCreatedEvent, FileModifiedEvent, FileDeletedEvent][kind]('/w/ch/SRC')
+    if kind == 0: ev, name = FileCreatedEvent('/w/ch/SRC'), 'created'
+    elif kind == 1: ev, name = FileModifiedEvent('/w/ch/SRC'), 'modified'
+    else: ev, name = FileDeletedEvent('/w/ch/SRC'), 'deleted'
     h.dispatch(ev)
-    name = ['created', 'modified', 'deleted'][kind]
     want = ok and _in_window(secs, frac, start, end)
     if not want: return h.log == []
     return h.log == [('any', name, '/w/ch/SRC', ''), (name, '/w/ch/SRC')]
@@ -76,9 +77,10 @@ def _dispatch_untimed(kind: int, ok: bool, timed: bool, match_time: bool, start:
     """
     # names without a timestamp (properties files) and match_time=False bypass the window
     h = _mk(ok, False, 5, 0, 0, 0, timed, start, None)
-    ev = [FileCreatedEvent, FileModifiedEvent, FileDeletedEvent][kind]('/w/ch/SRC')
+    if kind == 0: ev, name = FileCreatedEvent('/w/ch/SRC'), 'created'
+    elif kind == 1: ev, name = FileModifiedEvent('/w/ch/SRC'), 'modified'
+    else: ev, name = FileDeletedEvent('/w/ch/SRC'), 'deleted'
     h.dispatch(ev, match_time=match_time)
-    name = ['created', 'modified', 'deleted'][kind]
     want = ok and ((not timed) or (not match_time) or start is None or 5000 >= start)
     if not want: return h.log == []
     return h.log == [('any', name, '/w/ch/SRC', ''), (name, '/w/ch/SRC')]
